@@ -51,6 +51,15 @@ m("parens-limit", "_change.py", "            and prev_token.index > left_brace.i
 m("eq-merge-keeps-old-leaf", "_adapter/value_adapter.py", "        yield Replace(\n            node=old_node,", "        if isinstance(new_value, bool): return new_value\n        yield Replace(\n            node=old_node,", ["C02"], "bool leaves are never rewritten")
 
 
+# ---- C05
+m("minmax-swap", "_snapshot/min_max_value.py", '            flag = "fix"\n        elif not self.cmp(self._new_value, self._old_value):\n            flag = "trim"', '            flag = "trim"\n        elif not self.cmp(self._new_value, self._old_value):\n            flag = "fix"', ["C05"], "fix/trim swapped for bounds")
+m("collection-trim-pos", "_snapshot/collection_value.py", "            if old_value not in self._new_value:", "            if old_value not in self._new_value[:1]:", ["C05"], "trim keeps only members equal to the first tested value")
+m("dict-no-create", "_snapshot/dict_value.py", '                "create",\n                self._file,', '                "fix",\n                self._file,', ["C05"], "new sub-snapshot keys are flagged fix instead of create")
+m("update-rewrites-value", "_snapshot/min_max_value.py", '            flag = "update"', '            flag = "update"\n            new_token = value_to_token(self._old_value + 1 if isinstance(self._old_value, int) else self._old_value)', ["C05"], "an update of a bound changes its value")
+m("eq-fix-as-update", "_adapter/value_adapter.py", '                flag = "fix"', '                flag = "fix" if not isinstance(new_value, bool) else "update"', ["C05"], "bool leaf changes are flagged update")
+m("create-alters-existing", "_snapshot/dict_value.py", "                yield from self._new_value[key]._get_changes()", "                yield from (c if c.flag != 'fix' else type(c)(**{**c.__dict__, 'flag': 'create'}) for c in self._new_value[key]._get_changes())", ["C05"], "fixes inside sub-snapshots are labelled create")
+
+
 def make_copy(mut):
     base = os.environ.get("VERIF_TMP") or ("/dev/shm" if os.path.isdir("/dev/shm") else tempfile.gettempdir())
     d = Path(tempfile.mkdtemp(prefix="mutant-", dir=base))
